@@ -50,6 +50,17 @@ class Term:
     def __hash__(self) -> int:
         return self._hash
 
+    def __getstate__(self) -> dict[str, Any]:
+        # The cached hash derives from string hashes, which differ between
+        # interpreter processes (PYTHONHASHSEED); it must not be pickled.
+        state = self.__dict__.copy()
+        state.pop("_hash", None)
+        return state
+
+    def __setstate__(self, state: dict[str, Any]) -> None:
+        self.__dict__.update(state)
+        self._hash = hash(":".join(self._factor_key))
+
     def __eq__(self, other: Any) -> bool:
         if isinstance(other, Term):
             return self._factor_key == other._factor_key
